@@ -1,5 +1,6 @@
 import ScenicModel.Lemmas.Choose
 import ScenicModel.Gen.Choose
+import ScenicModel.Props.C19Step
 
 /-!
 # C19 — `do choose` / `do shuffle` and run-time random values follow the stated probabilities
@@ -49,7 +50,7 @@ theorem choose_prob (c : Config) (hc : c.WF) (env : Env) (t : Nat) (items : List
       if x ∈ enabledAt env t items then x.weight / totalW (enabledAt env t items) else 0 :=
   choose_prob_aux c hc env t items hid hnn hpos x hx
 
-example : Dist.prob (doChoose ⟨1, 1, 0, true⟩ ⟨fun i t => i != 3 || t ≥ 5, fun _ _ => 2⟩ 0 [⟨1, 2⟩, ⟨2, 3⟩, ⟨3, 1⟩])
+example : Dist.prob (doChoose ⟨1, 1, 0, true, false⟩ ⟨fun i t => i != 3 || t ≥ 5, fun _ _ => 2⟩ 0 [⟨1, 2⟩, ⟨2, 3⟩, ⟨3, 1⟩])
     (fun o => decide (o = chooseOutcome ⟨fun i t => i != 3 || t ≥ 5, fun _ _ => 2⟩ 0 ⟨2, 3⟩)) = 3 / 5 := by
   decide +kernel
 
@@ -97,7 +98,7 @@ theorem choose_single_ignores_weight (c : Config) (hc : c.WF) (env : Env) (t : N
   rw [pickEnabled_single c hc env t items x h]
   simp [Dist.bind, Dist.pure, chooseStep, chooseOutcome]
 
-example : doChoose ⟨1, 1, 0, true⟩ ⟨fun i _ => i == 7, fun _ _ => 3⟩ 4 [⟨7, 0⟩, ⟨8, 5⟩]
+example : doChoose ⟨1, 1, 0, true, false⟩ ⟨fun i _ => i == 7, fun _ _ => 3⟩ 4 [⟨7, 0⟩, ⟨8, 5⟩]
     = Dist.pure (chooseOutcome ⟨fun i _ => i == 7, fun _ _ => 3⟩ 4 ⟨7, 0⟩) := by decide +kernel
 
 /-- **tuple form is uniform.** `do choose A, B, …` gives every enabled item probability `1 / #enabled`. -/
@@ -189,14 +190,63 @@ theorem shuffle_reject_only_deadlock (c : Config) (hc : c.WF) (env : Env) (t : N
 
 -- a shuffle that deadlocks after its first item: item 2 is enabled only at step 0, item 1 runs one step
 example : (⟨[⟨0, 0, 1⟩], 1, .rejected⟩, (1 / 2 : Rat)) ∈
-    doShuffle ⟨1, 1, 0, true⟩ ⟨fun i t => i == 1 || t == 0, fun _ _ => 1⟩ 0 [⟨1, 1⟩, ⟨2, 1⟩] := by decide +kernel
+    doShuffle ⟨1, 1, 0, true, false⟩ ⟨fun i t => i == 1 || t == 0, fun _ _ => 1⟩ 0 [⟨1, 1⟩, ⟨2, 1⟩] := by decide +kernel
+
+/-! ## a dict operand held in a local variable (`d = {A(): 2, B(): 1}` … `do shuffle d` … `do choose d`) -/
+
+/-- **named_operand_is_literal.** If the shuffle scheduler works on a copy of its operand (`Config.copyOperand`, read
+from the source), a statement whose operand is a variable behaves exactly like the same statement with the dict written
+out: every theorem above about `do choose {…}` / `do shuffle {…}` then holds for `do choose d` / `do shuffle d`,
+however often and in whatever order the variable is used. -/
+theorem named_operand_is_literal (c : Config) (hc : c.copyOperand = true) (env : Env) (ss : List Stmt) (t : Nat)
+    (vals : List Int) (st : Store) :
+    exec c env ss t vals st = exec c env (ss.map (Stmt.resolve st)) t vals st := by
+  induction ss generalizing t vals with
+  | nil => rfl
+  | cons s ss ih =>
+    have hk : (fun t' => exec c env ss t' vals st) = (fun t' => exec c env (ss.map (Stmt.resolve st)) t' vals st) :=
+      funext fun t' => ih _ _
+    cases s with
+    | wait n => simp only [List.map_cons, Stmt.resolve, exec]; exact ih _ _
+    | draw d =>
+      simp only [List.map_cons, Stmt.resolve, exec]
+      have : (fun z => exec c env ss (t + 1) (vals ++ [z]) st) =
+          (fun z => exec c env (ss.map (Stmt.resolve st)) (t + 1) (vals ++ [z]) st) := funext fun z => ih _ _
+      rw [this]
+    | choose items => simp only [List.map_cons, Stmt.resolve, exec]; rw [hk]
+    | shuffle items => simp only [List.map_cons, Stmt.resolve, exec]; rw [hk]
+    | chooseVar k => simp only [List.map_cons, Stmt.resolve, exec]; rw [hk]
+    | shuffleVar k => simp only [List.map_cons, Stmt.resolve, exec, afterShuffle, hc, if_true]; rw [hk]
+
+-- non-vacuity: with operand copying, shuffling the same variable twice runs all its items twice
+example : Dist.prob (exec ⟨1, 1, 0, true, true⟩ ⟨fun _ _ => true, fun _ _ => 1⟩ [.shuffleVar 0, .shuffleVar 0] 0 []
+    [[⟨1, 1⟩, ⟨2, 3⟩]]) (fun o => decide (o.log.length = 4)) = 1 := by decide +kernel
+
+/-- **shuffleVar_consumes** (what the code does when `copyOperand = false`): `do shuffle d` runs the items `d` holds
+and leaves `d` empty for everything that follows. -/
+theorem shuffleVar_consumes (c : Config) (hc : c.copyOperand = false) (env : Env) (k : Nat) (rest : List Stmt) (t : Nat)
+    (vals : List Int) (st : Store) :
+    exec c env (.shuffleVar k :: rest) t vals st =
+      exec c env (.shuffle (st.getD k []) :: rest) t vals (st.set k []) := by
+  have h : afterShuffle c st k = st.set k [] := by simp [afterShuffle, hc]
+  simp only [exec, h]
+
+/-- **recorded defect (negation witness).** Without operand copying the statement "`do shuffle` runs every listed item
+exactly once" fails for the second of two `do shuffle d` on the same variable: it runs nothing (the two-statement body
+is the same as `do shuffle {A, B}; do shuffle {}`), and a `do choose d` after it deadlocks. -/
+theorem shuffle_consumes_operand_witness :
+    exec ⟨1, 1, 0, true, false⟩ ⟨fun _ _ => true, fun _ _ => 1⟩ [.shuffleVar 0, .shuffleVar 0] 0 [] [[⟨1, 1⟩, ⟨2, 3⟩]] =
+        exec ⟨1, 1, 0, true, false⟩ ⟨fun _ _ => true, fun _ _ => 1⟩ [.shuffle [⟨1, 1⟩, ⟨2, 3⟩], .shuffle []] 0 [] [] ∧
+      Dist.prob (exec ⟨1, 1, 0, true, false⟩ ⟨fun _ _ => true, fun _ _ => 1⟩ [.shuffleVar 0, .chooseVar 0] 0 []
+        [[⟨1, 1⟩, ⟨2, 3⟩]]) (fun o => decide (o.status = .rejected)) = 1 := by
+  decide +kernel
 
 /-! ## the model's outcomes form a probability distribution -/
 
 /-- **exec_mass.** For every program (sequence of waits, run-time draws, `do choose`, `do shuffle`) the outcome
 distribution has total mass 1; hence `P(rejected or error) = 1 − Σ P(finished logs)`. -/
-theorem exec_total_mass (c : Config) (hc : c.WF) (env : Env) (ss : List Stmt) (t : Nat) (vals : List Int) :
-    Dist.mass (exec c env ss t vals) = 1 := exec_mass c hc env ss t vals
+theorem exec_total_mass (c : Config) (hc : c.WF) (env : Env) (ss : List Stmt) (t : Nat) (vals : List Int)
+    (st : Store) : Dist.mass (exec c env ss t vals st) = 1 := exec_mass c hc env ss t vals st
 
 theorem shuffle_total_mass (c : Config) (hc : c.WF) (env : Env) (t : Nat) (items : List Item) :
     Dist.mass (doShuffle c env t items) = 1 := shuffleAux_mass c hc env _ _ _
@@ -206,21 +256,22 @@ theorem shuffle_total_mass (c : Config) (hc : c.WF) (env : Env) (t : Nat) (items
 /-- **runtime_draws_chain.** A body consisting of `n` distribution evaluations produces the value sequence `vs` with
 probability `Π_k P_k(v_k | v_1 … v_{k-1})` where `P_k` is the *stated* distribution of the `k`-th expression evaluated
 with the values drawn before it (and 0 if `vs` has the wrong length). -/
-theorem runtime_draws_chain (c : Config) (env : Env) (ss : List DrawSpec) (vals : List Int) (t : Nat) (vs : List Int) :
-    Dist.prob (exec c env (ss.map Stmt.draw) t vals)
+theorem runtime_draws_chain (c : Config) (env : Env) (ss : List DrawSpec) (vals : List Int) (t : Nat) (vs : List Int)
+    (st : Store) :
+    Dist.prob (exec c env (ss.map Stmt.draw) t vals st)
       (fun o => decide (o = ⟨drawEvents t vs, t + ss.length, .done⟩)) = chainProb c vals ss vs :=
-  exec_draws_chain c env ss vals t vs
+  exec_draws_chain c env ss vals t vs st
 
 /-- **runtime_draws_indep.** If the expressions do not mention earlier draws, the joint probability is the product of
 the stated marginals — whatever was drawn earlier in the simulation (`vals` arbitrary): every evaluation is a
 fresh, independent sample. -/
 theorem runtime_draws_indep (c : Config) (env : Env) (ss : List DrawSpec) (hcl : ∀ s ∈ ss, s.closed = true)
-    (vals : List Int) (t : Nat) (vs : List Int) :
-    Dist.prob (exec c env (ss.map Stmt.draw) t vals)
+    (vals : List Int) (t : Nat) (vs : List Int) (st : Store) :
+    Dist.prob (exec c env (ss.map Stmt.draw) t vals st)
       (fun o => decide (o = ⟨drawEvents t vs, t + ss.length, .done⟩)) = indepProb c ss vs := by
   rw [runtime_draws_chain, chainProb_indep c ss vals vs hcl]
 
-example : indepProb ⟨1, 1, 0, true⟩ [.range (.const 1) (.const 3), .weighted [(7, 1), (8, 3)], .range (.const 1) (.const 3)]
+example : indepProb ⟨1, 1, 0, true, false⟩ [.range (.const 1) (.const 3), .weighted [(7, 1), (8, 3)], .range (.const 1) (.const 3)]
     [2, 8, 2] = 1 / 12 := by decide +kernel
 
 /-- stated marginal of `DiscreteRange(l, h)`: uniform on `l..h` -/
@@ -285,10 +336,10 @@ example : Dist.prob (doChoose Scenic.Gen.chooseConfig exEnv 2 exItems)
   decide +kernel
 
 -- `shuffle_each_once` / `choose_exactly_one` speak about a non-empty support
-example : (orderOutcome exEnv 2 [⟨5, 3⟩, ⟨4, 2⟩, ⟨6, 1⟩], (3 / 5 : Rat)) ∈ doShuffle ⟨1, 1, 0, true⟩ exEnv 2 exItems := by
+example : (orderOutcome exEnv 2 [⟨5, 3⟩, ⟨4, 2⟩, ⟨6, 1⟩], (3 / 5 : Rat)) ∈ doShuffle ⟨1, 1, 0, true, false⟩ exEnv 2 exItems := by
   decide +kernel
 
-example : (chooseOutcome exEnv 2 ⟨4, 2⟩, (2 / 5 : Rat)) ∈ doChoose ⟨1, 1, 0, true⟩ exEnv 2 exItems := by
+example : (chooseOutcome exEnv 2 ⟨4, 2⟩, (2 / 5 : Rat)) ∈ doChoose ⟨1, 1, 0, true, false⟩ exEnv 2 exItems := by
   decide +kernel
 
 -- `runtime_draws_indep`: closed specs exist and give a non-degenerate product
